@@ -90,7 +90,7 @@ def search_failing_input(contract, repo, seconds=40.0, seed=0, scope=None):
     return None
 
 
-def consistency_sample(contract, repo, n=40, seed=0, scope=None):
+def consistency_sample(contract, repo, n=40, seed=0, scope=None, seconds=None):
     """prover/CPython consistency: the contract's concrete reading on the real function over random small inputs.
     -> (evaluated, skipped, violations[list], undecided)"""
     rng = random.Random(seed + 777)
@@ -99,7 +99,10 @@ def consistency_sample(contract, repo, n=40, seed=0, scope=None):
     evaluated = skipped = undecided = 0
     bad = []
     tries = 0
+    t0 = time.time()
     while evaluated < n and tries < n * 12:
+        if seconds is not None and time.time() - t0 > seconds:
+            break
         tries += 1
         args = custom(rng) if custom else {nm: gen_value(t, rng, scope) for nm, t in contract.params.items()}
         res = rtcheck.check_call(contract, args, repo=repo)
